@@ -1,0 +1,73 @@
+//go:build verif
+
+// Contracts for package server, checked by /verif/govc (comment-only file).
+
+package server
+
+// The listener and its handler slice are created in Start and are reachable only from
+// the serving goroutines, never from plugin state: calls of handlers cannot modify them
+// (`preserves` clauses below; listed as an assumption in the evidence).
+
+//@ pure func handlers4ok(l *listener4) bool = forall i in 0..len(l.handlers): l.handlers[i] != nil
+//@ pure func handlers6ok(l *listener6) bool = forall i in 0..len(l.handlers): l.handlers[i] != nil
+
+// the reply header mirrors the request (C11)
+//@ pure func mirrors4(resp *dhcpv4.DHCPv4, req *dhcpv4.DHCPv4) bool = resp.OpCode == 2 && resp.TransactionID == req.TransactionID && \
+//@     resp.HWType == req.HWType && resp.ClientHWAddr == req.ClientHWAddr && resp.Flags == req.Flags && resp.GatewayIPAddr == req.GatewayIPAddr && \
+//@     (has(resp.Options, 82) <==> has(req.Options, 82)) && resp.Options[82] == req.Options[82] && \
+//@     (has(resp.Options, 61) <==> has(req.Options, 61)) && resp.Options[61] == req.Options[61]
+// OFFER for DISCOVER, ACK for REQUEST
+//@ pure func answers4(resp *dhcpv4.DHCPv4, req *dhcpv4.DHCPv4) bool = (mtof(req.Options) == 1 && mtof(resp.Options) == 2) || (mtof(req.Options) == 3 && mtof(resp.Options) == 5)
+
+//@ func sendEthernet
+//@   requires valid4(resp)
+//@   modifies sent, sent_l2, sent_l2_resp, sent_l2_ifindex
+//@   trusted-ensures
+//@   ensures (sent == old(sent) && err != nil) || (sent == old(sent) + 1 && sent_l2 && sent_l2_resp == resp && sent_l2_ifindex == iface.Index)
+
+//@ func (*listener4).HandleMsg4
+//@   requires l != nil && l.PacketConn != nil && handlers4ok(l)
+//@   requires cap(buf) >= 65536
+// environment: the receiving interface is known (bound listener, or the kernel's control message)
+//@   requires l.Interface.Index != 0 || (oob != nil && oob.IfIndex != 0)
+//@   preserves *l, elems(l.handlers), *oob
+//@   modifies everything
+//@   loop 1: invariant req != nil && valid4(req) && req.OpCode == 1 && resp != nil && valid4(resp) && resp != req
+//@   loop 1: invariant sent == old(sent)
+//@   loop 1: invariant l.handlers == old(l.handlers)
+//@   loop 1: invariant handlers4ok(l)
+//@   loop 1: invariant l.PacketConn != nil
+//@   loop 1: invariant l.Interface.Index != 0 || (oob != nil && oob.IfIndex != 0)
+//@   loop 1: invariant l.Interface.Index == old(l.Interface.Index)
+//@   loop 1: invariant[C11] mirrors4(resp, req) && answers4(resp, req)
+//@   loop 1: invariant[C13] 0 <= rangeindex + 1 && rangeindex + 1 <= len(l.handlers) && hlog_n == old(hlog_n) + rangeindex + 1
+//@   loop 1: invariant unchanged(old(l.handlers))
+//@   loop 1: invariant[C13] forall j in old(hlog_n)..hlog_n: (hlog_fn[j] == old(l.handlers[j - old(hlog_n)]) && hlog_req4[j] == req && !hlog_stop[j] && \
+//@       (j > old(hlog_n) ==> hlog_in4[j] == hlog_out4[j-1]) && (j == old(hlog_n) ==> hlog_in4[j] == tmp))
+//@   loop 1: invariant[C13] (rangeindex + 1 > 0 ==> resp == hlog_out4[hlog_n-1]) && (rangeindex + 1 == 0 ==> resp == tmp)
+//@   ensures[C01:at-most-one-reply] sent == old(sent) || sent == old(sent) + 1
+// C13: handlers are invoked in slice order, each at most once, with the original request and the
+// response returned by the predecessor, until one says stop; what is sent is the last response.
+//@   ensures[C13:count] hlog_n - old(hlog_n) >= 0 && hlog_n - old(hlog_n) <= len(l.handlers)
+//@   ensures[C13:invoked-in-order] forall j in old(hlog_n)..hlog_n: hlog_fn[j] == old(l.handlers[j - old(hlog_n)])
+//@   ensures[C13:same-request] forall j in old(hlog_n)..hlog_n: hlog_req4[j] == req
+//@   ensures[C13:response-threaded] forall j in old(hlog_n)..hlog_n: ((j > old(hlog_n) ==> (hlog_in4[j] == hlog_out4[j-1] && !hlog_stop[j-1])) && (j == old(hlog_n) ==> hlog_in4[j] == tmp))
+//@   ensures[C13:until-stop] (hlog_n > old(hlog_n) && hlog_n - old(hlog_n) < len(l.handlers)) ==> hlog_stop[hlog_n-1]
+//@   ensures[C13:all-run-or-dropped-early] (hlog_n == old(hlog_n) && len(l.handlers) > 0) ==> sent == old(sent)
+//@   ensures[C13:sends-last-response] (sent == old(sent) + 1 && hlog_n > old(hlog_n)) ==> ((!sent_l2 ==> pktof(sent_b) == hlog_out4[hlog_n-1]) && (sent_l2 ==> sent_l2_resp == hlog_out4[hlog_n-1]))
+//@   ensures[C13:nil-means-nothing-sent] (hlog_n > old(hlog_n) && hlog_out4[hlog_n-1] == nil) ==> sent == old(sent)
+// C15: RFC 2131 section 4.1 addressing
+//@   ensures[C15:relayed] (sent == old(sent) + 1 && !isunspech(heap8(), req.GatewayIPAddr)) ==> (!sent_l2 && sent_dst.(*net.UDPAddr).IP == req.GatewayIPAddr && sent_dst.(*net.UDPAddr).Port == 67)
+//@   ensures[C15:nak-broadcast] (sent == old(sent) + 1 && isunspech(heap8(), req.GatewayIPAddr) && mtof(resp.Options) == 6) ==> (!sent_l2 && sent_dst.(*net.UDPAddr).IP == net.IPv4bcast && sent_dst.(*net.UDPAddr).Port == 68)
+//@   ensures[C15:ciaddr-unicast] (sent == old(sent) + 1 && isunspech(heap8(), req.GatewayIPAddr) && mtof(resp.Options) != 6 && !isunspech(heap8(), req.ClientIPAddr)) ==> \
+//@       (!sent_l2 && sent_dst.(*net.UDPAddr).IP == req.ClientIPAddr && sent_dst.(*net.UDPAddr).Port == 68)
+//@   ensures[C15:broadcast-flag] (sent == old(sent) + 1 && isunspech(heap8(), req.GatewayIPAddr) && mtof(resp.Options) != 6 && isunspech(heap8(), req.ClientIPAddr) && (req.Flags & 32768) == 32768) ==> \
+//@       (!sent_l2 && sent_dst.(*net.UDPAddr).IP == net.IPv4bcast && sent_dst.(*net.UDPAddr).Port == 68)
+//@   ensures[C15:link-level-unicast] (sent == old(sent) + 1 && isunspech(heap8(), req.GatewayIPAddr) && mtof(resp.Options) != 6 && isunspech(heap8(), req.ClientIPAddr) && (req.Flags & 32768) != 32768) ==> \
+//@       (sent_l2 && sent_l2_resp == resp && sent_l2_ifindex == ite(l.Interface.Index != 0, l.Interface.Index, oob.IfIndex))
+//@   ensures[C15:interface-pinning] (sent == old(sent) + 1 && !sent_l2) ==> \
+//@       ((sent_cm4 != nil) <==> (ipeqh(heap8(), sent_dst.(*net.UDPAddr).IP, net.IPv4bcast) || islluh(heap8(), sent_dst.(*net.UDPAddr).IP))) && \
+//@       (sent_cm4 != nil ==> sent_cm4.IfIndex == ite(l.Interface.Index != 0, l.Interface.Index, oob.IfIndex))
+//@   ensures[C11:reply-answers-a-request] sent == old(sent) + 1 ==> (req != nil && req.OpCode == 1 && (mtof(req.Options) == 1 || mtof(req.Options) == 3))
+//@   ensures[C11:reply-mirrors-request] (sent == old(sent) + 1 && !sent_l2) ==> (pktof(sent_b) != nil && mirrors4(pktof(sent_b), req) && answers4(pktof(sent_b), req))
+//@   ensures[C11:reply-mirrors-request] (sent == old(sent) + 1 && sent_l2) ==> (sent_l2_resp != nil && mirrors4(sent_l2_resp, req) && answers4(sent_l2_resp, req))
